@@ -41,6 +41,7 @@ type FuncContract struct {
 	Requires   []Clause
 	Ensures    []Clause
 	Modifies   []ModItem
+	ModAll     bool // "modifies everything"
 	HasMod     bool
 	Invariants map[int][]Clause
 	Decreases  map[int]Clause
@@ -219,6 +220,11 @@ func ParseFile(path, pkgPath string) (*File, error) {
 			}
 			cur.HasMod = true
 			if strings.TrimSpace(rest) == "nothing" {
+				break
+			}
+			if strings.TrimSpace(rest) == "everything" {
+				// no frame condition is stated (and none is checked)
+				cur.ModAll = true
 				break
 			}
 			for _, it := range splitTop(rest, ',') {
